@@ -334,6 +334,28 @@ PROPS = {
         "level_text": "All executions up to the depth bound compared with a reference policy trace (times included); injected faults into the running task sampled and tabulated.",
         "level_note": "Trusts the reference model polModel (written from the statement), testing/synctest, and the in-memory fakes.",
     },
+    "C04": {
+        "pkg": "internal/corerad",
+        "files": ["corerad/zz_verif_C12_test.go", "corerad/zz_verif_sim_test.go", "corerad/zz_verif_adv_test.go", "corerad/zz_verif_mon_test.go", "corerad/zz_verif_C06_test.go", "corerad/zz_verif_C04_test.go"],
+        "run": "TestVerif_C04",
+        "level": "exploration",
+        "bubble": True,
+        "quick": {"shards": 8},
+        "thorough": {"shards": 16},
+        "rule": ("histories of 2..14 timed operations on a real Advertiser.Run in a synctest bubble: forwarding flips of the advertising interface and "
+                 "of up to two further configured interfaces, RS from unicast sources and ::, periodic RAs, foreign inconsistent RAs (the hook exposes "
+                 "CoreRAD's own RA), metric scrapes (constScrape with fresh collectors) and GET /_/api/interfaces (crhttp handler sharing the same "
+                 "config.Interface values), stop with terminate; default_lifetime in {0, 12 s, 1800 s, 9000 s}; exhaustive matrix {paths} x {forwarding "
+                 "before/after a flip, no flip} x lifetime {0, 1800, 9000}. Oracle per generated RA, with f = forwarding at that instant from the "
+                 "flip log (either value accepted when a flip has exactly the same timestamp): lifetime 0 iff not f (or final RA), all other content "
+                 "unchanged; forwarding gauge = f; interface_not_forwarding gauge present iff not f and configured lifetime > 0, per interface; API "
+                 "router_lifetime_seconds; number of 'not configured for IPv6 forwarding' log lines = number of advertiser-generated RAs with not f and "
+                 "lifetime > 0. Non-trivial: a flip followed by a generation, on >= 2 different paths. Distinct: FNV-64 of the canonical JSON case."),
+        "assumptions": [STAGED, BUBBLE, FAKES],
+        "technique": "rapid property-based testing of flip/generation histories on virtual time + exhaustive path matrix; per-RA history invariant",
+        "level_text": "Random histories covering all seven generation paths with exact timestamps; counterexample search, not proof.",
+        "level_note": "Trusts testing/synctest, the in-memory State and the expected-RA builder advCfg.expect.",
+    },
 }
 
 NOT_APPLICABLE = {}
